@@ -19,6 +19,6 @@ def main(tier):
     from . import c07
     # a timer left behind by a finished client is only ever enabled on a tree that leaves one (event TOO): its handler running on the released request
     # (a verdict for a client that is gone, or a sanitizer abort while writing one) is this property's violation
-    return pcommon.run_plan('C01', tier, plan(tier), ('C01.',), NEED, crash_is_violation=('TOO',), pre_cov=lambda run: c07.direct_differential(run, tier, prefixes=('C01.',)))
+    return pcommon.run_plan('C01', tier, plan(tier), ('C01.',), NEED, crash_is_violation=('TOO',), pre_cov=lambda run: c07.direct_differential(run, tier, prefixes=('C01.',), extras=False))
 
 replay = pcommon.replay
